@@ -92,7 +92,7 @@ instance : Inhabited RObj := ⟨{}⟩
     the real `part_end_` -/
 def rpeDump (ro : RObj) : String :=
   match ro.rep with
-  | some r => s!" rpe={natList r.partEnd}"
+  | some r => s!" rpe={natList r.partEnd}/h{b01 r.hostNotNull}p{b01 r.portNotNull}q{b01 r.queryNotNull}f{b01 r.fragmentNotNull}o{b01 r.opaquePath}t{r.hostType}/{r.segCount}/{match r.schemeIdx with | some i => toString i | none => "-1"}/{hx r.norm}"
   | none => ""
 
 structure St where
@@ -146,22 +146,21 @@ def exec (idna : Idna) (st : St) (toks : List String) : St × String :=
     let u := parseUnits units
     let bI := resolveBase idna st base false
     let bS := resolveBase idna st base true
-    let strBase := base.startsWith "t"
-    -- string-base overloads parse the base first and return its error without touching the object
-    let (o', ok) : UrlObj × Bool :=
-      if strBase && bI == some none then (st.objs[k]!, false) else st.objs[k]!.parse idna e u bI
+    -- string-base overloads parse the base first; when that fails the parse fails as with an invalid base object and
+    -- the url is left empty (since 90693ba; before, the object kept its old value and stayed valid: finding F16)
+    let (o', ok) : UrlObj × Bool := st.objs[k]!.parse idna e u bI
     let bR : Option (Option Rep) :=
       if base == "-" then none
       else if base.startsWith "s" then some (st.robjs[(base.drop 1).toNat!]!.rep)
       else match (base.drop 1).toString.splitOn ":" with
         | [be, bu] => some (parseRep idna (parseEnc be) (parseUnits bu) none)
         | _ => some none
-    let ro' : RObj := if strBase && bR == some none then st.robjs[k]! else (st.robjs[k]!.parse idna e u bR).1
+    let ro' : RObj := (st.robjs[k]!.parse idna e u bR).1
     let cp := match bI with
       | some none => false
       | _ => canParse idna e u (bI.bind id)
     let (sres, sok) : Option Url × Bool := match bS with
-      | some none => (if strBase then st.specs[k]! else none, false)
+      | some none => (none, false)
       | _ => let r := Spec.apiParse idna e u (bS.bind id); (r, r.isSome)
     ({ st with objs := st.objs.set! k o', specs := st.specs.set! k sres, robjs := st.robjs.set! k ro' },
      s!"ok={b01 ok} cp={b01 cp} {dumpImpl idna o'.url}{spDump o'}{rpeDump ro'} ## ok={b01 sok} {dumpSpec idna sres}")
@@ -369,6 +368,13 @@ def exec (idna : Idna) (st : St) (toks : List String) : St × String :=
     match setName set with
     | some ne => (st, s!"{hx (percentEncode ne (decode e u))} ## {hx (Spec.utf8PercentEncode (specSetName set) (Spec.decode e u))}")
     | none => (st, "? ## ?")
+  | ["pencset", fromS, toS, exclS, enc, units] =>
+    -- a USER-BUILT no-encode set: include(from, to), then exclude(excl)  (C14 quantifies over arbitrary user sets)
+    let lo := parseHexNat fromS
+    let hi := parseHexNat toS
+    let ex := parseHexNat exclS
+    let ne : Nat → Bool := fun c => decide (lo ≤ c) && decide (c ≤ hi) && c != ex && decide (c < 256)
+    (st, s!"{hx (percentEncode ne (decode (parseEnc enc) (parseUnits units)))} ## ~")
   | ["pdec", enc, units] =>
     let e := parseEnc enc
     let u := parseUnits units
@@ -513,6 +519,8 @@ def rewriteAlias (st : St) (toks : List String) : List String :=
     match st.params[slot.toNat!]!.list with
     | (n, v) :: _ => ["psp", slot, "append", "8", unitsStr n, "8", unitsStr v]
     | [] => ["psp", slot, "size"]
+  | ["psp", slot, "selfsafea"] => ["psp", slot, "size"]      -- a params object moved into itself stays as it is
+  | ["sp", slot, "selfsafea"] => ["sp", slot, "get"]
   | ["psp", slot, "aset2"] =>     -- name = the second-to-last pair's name (a duplicate that is erased while names are still compared)
     match st.params[slot.toNat!]!.list, secondToLast st.params[slot.toNat!]!.list with
     | (_, v) :: _, some (n, _) => ["psp", slot, "set", "8", unitsStr n, "8", unitsStr v]
